@@ -392,6 +392,8 @@ func runC06(c *Ctx) {
 		}
 	}
 	c06CacheAtomic(c)
+	// a compacted file keeps its newest input's timestamp on every backend (shared with C15)
+	c15MetadataBeforeBody(c, "R7-timestamp-metadata-stored")
 	// R4 by reference: C05-R4 hand-off
 	if fn != nil {
 		sub := &Ctx{P: c.P, Prop: c.Prop, Tier: c.Tier}
